@@ -31,9 +31,6 @@ inductive AlgoRes where
   | panic
 deriving DecidableEq, Repr
 
-def AlgoRes.render : AlgoRes → String
-  | .ok fp => (if fp.exp < 0 then "inv " else "ok ") ++ toString fp.mant ++ " " ++ toString fp.exp
-  | .panic => "panic"
 
 /-- a float type as the algorithms see it -/
 structure FTy where
@@ -126,5 +123,12 @@ def smallSetOf (feats : Features) : SmallSet :=
 unsigned type of the float's width -/
 def extendedToFloat (F : FTy) (x : ExtendedFloat80) : Nat :=
   (x.mant ||| shl64 (asU64 x.exp) F.ms) % 2 ^ F.C.bits.toNat
+
+/-- line-protocol rendering: `ok <bits of extended_to_float, hex> <mant> <exp>` (valid) | `inv <mant> <exp>` -/
+def AlgoRes.render (F : FTy) : AlgoRes → String
+  | .ok fp =>
+    if fp.exp < 0 then "inv " ++ toString fp.mant ++ " " ++ toString fp.exp
+    else "ok " ++ toHex (extendedToFloat F fp) ++ " " ++ toString fp.mant ++ " " ++ toString fp.exp
+  | .panic => "panic"
 
 end LexVerif.Model
